@@ -41,13 +41,18 @@ def _mk_unit(u: family.Unit):
                 mname = "_".join(L._path(msg))
                 if only and not only.startswith("%s/%s/" % (pid, mname)):
                     continue
-                for what in ("encode", "decode"):
+                for what in ("encode", "decode", "json"):
+                    if what == "json" and "C16" not in props:
+                        continue
                     def body(msg=msg, what=what, mname=mname):
                         mods, mod = load()
                         cls = genpy.py_class(mod, msg)
                         E.proof_id = "%s/%s" % (pid, mname)
                         if what == "encode":
                             genpy.run_encode(E, cls, msg, mods)
+                        elif what == "json":
+                            genpy.run_json(E, cls, msg, mods, genpy.LAST_BP)
+                            genpy.run_json_native(E, outs, _order(u.schema), u.schema.fname().replace(".bitproto", "_bp"), msg)
                         else:
                             inst, v, buf = genpy.run_decode(E, cls, msg, mods)
                             genpy.run_reencode(E, inst, msg, buf)
@@ -75,13 +80,13 @@ _quick = set(family.kind_tags("quick"))
 for _t in family.kind_tags("thorough"):
     _u = family.leaf_unit(_t)
     _u.tier = "quick" if _t in _quick else "thorough"
-    _u.props = ["C01", "C02", "C07", "C14"]
+    _u.props = ["C01", "C02", "C07", "C14", "C16"]
     _mk_unit(_u)
 for _u in family.composite_units():
     if _u.name == "composite:enum-default-nonzero":
         _u.props = ["C02"]
     elif "composite" in _u.tags:
-        _u.props = ["C01", "C02", "C07", "C12"]
+        _u.props = ["C01", "C02", "C07", "C12", "C16"]
     _mk_unit(_u)
 
 
